@@ -1172,6 +1172,12 @@ func (g *c19Gen) next(pre int, ep int, limited bool) c19Req {
 	case 'O':
 		r.Kind = "op"
 		r.Body, r.Class, r.Expect, r.TaskRef = g.opRequest()
+		if r.Class == "op-delete-existing" && g.idx%3 != 0 {
+			// the meta store fails while the delete of an existing task is being served: the request is refused and
+			// the task, its checkpoints and the names it owns stay as they were
+			r.Class = "op-delete-existing-store-fault"
+			r.FailAt = 1 + g.idx%3
+		}
 	case 'X':
 		r.Kind, r.Method = "method", c19MethodFor(g.rng)
 		r.Class = "method-" + strings.ToUpper(r.Method)
